@@ -937,29 +937,22 @@ pub mod chan {
                 Receiver::Sim(r) => Some(r.0.id),
             }
         }
-        /// Under simulation: polls, sleeping on the simulated clock in between, until a
-        /// message arrives, the channel disconnects or `timeout` of simulated time has passed.
+        /// Under simulation: blocks until a message arrives, the channel disconnects or
+        /// `timeout` of simulated time has passed.
         pub fn recv_timeout(&self, timeout: ::std::time::Duration) -> Result<T, ::std::sync::mpsc::RecvTimeoutError> {
             use ::std::sync::mpsc::RecvTimeoutError;
             match self {
                 Receiver::Real(r) => r.recv_timeout(timeout),
                 Receiver::Sim(r) => {
                     let total = timeout.as_nanos().min(u128::from(u64::MAX)) as u64;
-                    let slice = (total / 8).max(1);
-                    let mut waited = 0u64;
-                    loop {
-                        match r.recv_inner(false) {
-                            Ok(v) => return Ok(v),
-                            Err(TryRecvError::Disconnected) => return Err(RecvTimeoutError::Disconnected),
-                            Err(TryRecvError::Empty) => {}
-                        }
-                        if waited >= total {
-                            return Err(RecvTimeoutError::Timeout);
-                        }
-                        if let Some((sh, me)) = current() {
-                            crate::sim_sleep_until(&sh, me, slice);
-                        }
-                        waited = waited.saturating_add(slice);
+                    let mut got = None;
+                    let out = crate::chan_recv_deadline(&r.0.sh, r.0.id, true, Some(total), || {
+                        got = r.0.q.lock().unwrap_or_else(|p| p.into_inner()).pop_front();
+                    });
+                    match out {
+                        RecvOutcome::Got => Ok(got.expect("dstsim: metadata and payload queues out of sync")),
+                        RecvOutcome::Disconnected => Err(RecvTimeoutError::Disconnected),
+                        RecvOutcome::Empty => Err(RecvTimeoutError::Timeout),
                     }
                 }
             }
